@@ -133,14 +133,17 @@ def check_type_selection(rep, prog):
         rep.check(types == [want], 'C02.1c', 'PGPKey.%s' % meth, '%s subject -> %s' % (label, types),
                   '%s of a %s must produce a %s signature' % (meth, label, want), where=fi.where, expected=want, found=types,
                   scenario='%s(%s)' % (meth, label))
+        seen_args = []
         for s, c in news:
             a = c[1]
+            if a in seen_args:
+                continue
+            seen_args.append(a)
             ok = len(a) >= 4 and a[1] == 'self.key_algorithm' and a[3] == 'self.fingerprint.keyid'
             rep.check(ok, 'C02.1c', 'PGPKey.%s' % meth, 'PGPSignature.new(%s)' % ', '.join(a),
                       'the new signature must name the signing key\'s own algorithm and key id', where=fi.where,
                       expected='PGPSignature.new(<type>, self.key_algorithm, <hash>, self.fingerprint.keyid, ...)', found=a,
                       scenario='%s(%s)' % (meth, label))
-            break
         # subject handed to _sign
         nsign = 0
         for s in outs:
@@ -241,7 +244,7 @@ def check_sign_flow(rep, prog):
                 m = re.match(r'^self\.__privkey__\(\)\.sign\((.*)\)$', r)
                 a = split_args(m.group(1)) if m else []
                 # first argument the data; the caller's hash object is an argument itself or the argument of the ECDSA scheme
-                ok = a[:1] == ['sigdata'] and any(x in ('hash_alg', 'ec.ECDSA(hash_alg)', 'algorithm=hash_alg') for x in a[1:])
+                ok = a[:1] == ['sigdata'] and any(x in ('hash_alg', 'ec.ECDSA(hash_alg)', 'ec.ECDSA(algorithm=hash_alg)', 'algorithm=hash_alg') for x in a[1:])
             rep.check(ok, 'C02.2', '%s.sign' % ci.name, 'return %s' % r, 'the library must sign the caller\'s data with the caller\'s hash',
                       where=f.where, found=r)
 
@@ -395,7 +398,7 @@ def _consistent_with_displays(s):
 def signature_class_for(prog, f, e):
     """Class SignatureV4.pubalg_int installs as `self.signature` when the algorithm octet is member e (table or if-chain)."""
     sc = Scenario(args=at(f, p1=e), inline=noinline, inline_props={'pubalg'})
-    got = set()
+    cands = []
     for s in Interp(prog, sc).run(f):
         if s.raised or not _consistent_with_displays(s):
             continue
@@ -403,9 +406,15 @@ def signature_class_for(prog, f, e):
         if len(st) != 1:
             raise AnalysisError('%s: %d stores to self.signature' % (f.qualname, len(st)))
         t = st[0]
-        if t.endswith('()'):
-            t = resolve_lookup(t[:-2])
-        got.add(t)
+        r = resolve_lookup(t[:-2]) if t.endswith('()') else t
+        handler = any(re.match(r'^except \(?(KeyError|LookupError|Exception)\b', fct[0]) for fct in s.facts)
+        cands.append((r, handler, t.startswith('{') and r != t[:-2], r.startswith('{')))
+    # `table[K]` guarded by `except KeyError`: the subscript succeeds exactly when K is a key of the display, so for a decided K
+    # one of the two paths does not exist
+    if any(hit for r, handler, hit, miss in cands):
+        cands = [c for c in cands if not c[1]]
+    cands = [c for c in cands if not c[3]] if any(c[1] for c in cands) else cands
+    got = set(c[0] for c in cands)
     if len(got) != 1 or not re.match(r'^\w+$', next(iter(got))):
         raise AnalysisError('%s: cannot read the signature class chosen for %s: %s' % (f.qualname, render(e), sorted(got)))
     return next(iter(got))
@@ -463,6 +472,7 @@ def check_sig_codecs(rep, prog):
                   expected='INT(w;r) INT(w;s) with w = (key_size + 7) // 8', found=r)
     f = ed.methods['from_signer']
     halves = ('(len(sig) // 2)', '(len(sig) >> 1)')
+    lows = lambda H: (H, '-' + H)          # for a signature of even length (odd ones are refused) sig[-h:] is sig[h:]   # noqa: E731
     npaths = 0
     for s in Interp(prog, Scenario(args=at(f, p1=SIG), inline=noinline)).run(f):
         if s.raised:
@@ -470,7 +480,8 @@ def check_sig_codecs(rep, prog):
         npaths += 1
         r_ = [v for p, v, l, _ in s.stores if p == 'self.r']
         s_ = [v for p, v, l, _ in s.stores if p == 'self.s']
-        ok = any(r_ == ['MPI(self.bytes_to_int(%s))' % sl('sig', ('', H))] and s_ == ['MPI(self.bytes_to_int(%s))' % sl('sig', (H, ''))] for H in halves)
+        ok = any(r_ == ['MPI(self.bytes_to_int(%s))' % sl('sig', ('', H))] and s_ == ['MPI(self.bytes_to_int(%s))' % sl('sig', (L, ''))]
+                 for H in halves for L in lows(H))
         rep.check(ok, 'C02.4', 'EdDSASignature.from_signer', 'r=%s s=%s' % (r_, s_), 'the signer output is split into two equal halves r || s',
                   where=ed.where, expected='r = sig[:len(sig) // 2], s = sig[len(sig) // 2:]', found='r=%s s=%s' % (r_, s_))
     if not npaths:
